@@ -63,23 +63,27 @@ Theorem C20_schedule_all : forall (jobs : list (Z * cronspec * specmask * zone))
 Proof. exact schedule_exact. Qed.
 Print Assumptions C20_schedule_all.
 
-(* non-vacuity: "30 23 L,15 2-12/2 5L,1#2" parses, is in the grammar, and runs on 2024-02-29 23:30
-   (a leap day, the last day of February) but not one minute later, nor on 2100-02-29 (no such day:
-   the instant is 2100-03-01, odd month) *)
-Example C20_example :
-  let s := [51;48;32;50;51;32;76;44;49;53;32;50;45;49;50;47;50;32;53;76;44;49;35;50] in
-  exists a m, lex_spec s = Some a /\ wf_spec a = true /\ parse_spec s = Some m /\
-    spec_run m (civil_of 0 1709249400) = true /\ spec_run m (civil_of 0 1709249460) = false /\
-    spec_run m (civil_of 0 4107627000) = false.
-Proof. vm_compute. eexists. eexists. repeat split; reflexivity. Qed.
+(* non-vacuity: "30 23 L,15 2-12 5L,1#2" parses, is in the grammar, and runs on 2024-02-29 23:30
+   (a leap day, the last day of February) but not one minute later, nor on 2100-03-01 23:30 *)
+Definition example_spec : str := [51;48;32;50;51;32;76;44;49;53;32;50;45;49;50;32;53;76;44;49;35;50].
+Definition example_b : bool :=
+  match lex_spec example_spec, parse_spec example_spec with
+  | Some a, Some m =>
+      wf_spec a && spec_run m (civil_of 0 1709249400) && negb (spec_run m (civil_of 0 1709249460)) &&
+      negb (spec_run m (civil_of 0 4107627000)) && matches a (civil_of 0 1709249400)
+  | _, _ => false
+  end.
+Example C20_example : example_b = true.
+Proof. vm_compute. reflexivity. Qed.
 
 (* the defect repaired in /repo (fix commit 8055d63): the former dL test "month of t+168h differs"
    fires on 2024-03-24 23:30 Europe/Berlin, which is not the last Sunday of March *)
 Definition old_lastdw_fires (z : zone) (t : Z) : bool :=
   negb (c_month (civil_of (z t) t) =? c_month (civil_of (z (t + 604800)) (t + 604800))).
-Example C20_add168h_refuted :
-  let berlin := table_off [(1711846800, 7200)] 3600 in
-  old_lastdw_fires berlin 1711319400 = true /\
-  dow_has (ILastW 7) (civil_of (berlin 1711319400) 1711319400) = false /\
-  wd7 (civil_of (berlin 1711319400) 1711319400) = 7.
-Proof. vm_compute. repeat split; reflexivity. Qed.
+Definition berlin_2024 : zone := table_off [(1711846800, 7200)] 3600.
+Definition add168h_refuted_b : bool :=
+  old_lastdw_fires berlin_2024 1711319400 &&
+  negb (dow_has (ILastW 7) (civil_of (berlin_2024 1711319400) 1711319400)) &&
+  (wd7 (civil_of (berlin_2024 1711319400) 1711319400) =? 7).
+Example C20_add168h_refuted : add168h_refuted_b = true.
+Proof. vm_compute. reflexivity. Qed.
